@@ -2899,6 +2899,11 @@ class Mailbox:
         Creates a mailbox on disk that does not already exist and
         instantiates a Mailbox object for it.
         """
+        # Like `get_mailbox()`: the hierarchy separator at the front of a name
+        # is not part of the name we use internally.
+        #
+        name = name[1:] if name and name[0] == "/" else name
+
         # You can not create 'INBOX' nor, because of MH rules, create a mailbox
         # that is just the digits 0-9.
         #
